@@ -1,6 +1,10 @@
-from props.common import add_obs, ASSUME_BOUNDED
+from props.common import add_obs, verify_keys, ASSUME_BOUNDED
 from pv import obs_tables as T
 from pv import obs_tables_small as S
+
+
+KEYS = ['parso.pgen2.generator.DFAState.__eq__', 'parso.pgen2.generator.DFAState.unifystate',
+        'parso.pgen2.generator.DFAState.add_arc']
 
 
 def _tables():
@@ -16,6 +20,9 @@ def run(report):
                   "T obligations are exact decisions over the complete finite domain 'all rules / states / transitions of "
                   "all shipped grammar files' (evaluated on the live tables built by the code under check, under python3-vt)",
                   "independent EBNF reader and automata library spec/ebnf.py")
+    # VCs of the generator's helpers: the state equivalence _simplify_dfas merges by, the redirection of merged arcs, arcs
+    # never overwritten, one ReservedString per value
+    verify_keys(report, KEYS)
     max_size = 3
     full = report.tier != 'quick'
 
